@@ -233,7 +233,7 @@ def make_program(rnd, features, threads=False):
         q = rnd.random()
         if 'gen' in features and q < 0.25:
             k = 'gen'
-        elif 'co' in features and q < 0.35:
+        elif 'co' in features and q < (0.8 if 'cotasks' in features else 0.35):
             k = 'co'
         g.kinds[i] = k
     g.kinds[0] = 'fn'
@@ -364,7 +364,7 @@ def make_program(rnd, features, threads=False):
             registered += grp
         regnames = []
     for nm in regnames:
-        if rnd.random() < 0.5 or 'bare' in features:
+        if (rnd.random() < 0.5 or 'bare' in features) and not ('cotasks' in features and kinds[nm] == 'co'):
             m.append('    P.reg(%r)' % nm)
             registered.append(nm)
         else:
